@@ -19,8 +19,10 @@ def discharge(w, ob, timeout_ms=DEFAULT_TIMEOUT_MS, fuel=3):
     s.set("timeout", timeout_ms)
     for a in w.axioms:
         s.add(a)
-    pc = [inline_nonrec(w, c) for c in ob.pc]
-    goal = inline_nonrec(w, ob.goal)
+    pc, goal = eliminate_defs(w, list(ob.pc), ob.goal)
+    pc = [inline_nonrec(w, c) for c in pc]
+    goal = inline_nonrec(w, goal)
+    pc, goal = eliminate_defs(w, pc, goal)
     for c in pc:
         s.add(c)
     s.add(z3.Not(goal))
@@ -51,6 +53,56 @@ def discharge(w, ob, timeout_ms=DEFAULT_TIMEOUT_MS, fuel=3):
         ob.reason = s.reason_unknown()
     ob.time = time.time() - t0
     return ob
+
+
+def _contains(t, c):
+    seen = set()
+    stack = [t]
+    while stack:
+        x = stack.pop()
+        if x.get_id() in seen:
+            continue
+        seen.add(x.get_id())
+        if x.eq(c):
+            return True
+        if z3.is_app(x):
+            stack.extend(x.children())
+    return False
+
+
+def eliminate_defs(w, pc, goal, rounds=6):
+    """Path conditions of the form  v == t  (v an uninterpreted constant of sort Py / PyList, t a
+    constructor term not mentioning v) are used as rewrites v -> t in all other formulas, so that
+    results of callees whose contract gives the term become syntactically concrete.  The equation
+    itself stays in the path condition.  Equivalence preserving."""
+    S = w.S
+    for _ in range(rounds):
+        sub = None
+        for f in pc:
+            if z3.is_eq(f):
+                a, b = f.arg(0), f.arg(1)
+                for v, t in ((a, b), (b, a)):
+                    if z3.is_const(v) and v.decl().kind() == z3.Z3_OP_UNINTERPRETED \
+                            and v.sort() in (S.Py, S.PyList) and z3.is_app(t) \
+                            and t.decl().kind() == z3.Z3_OP_DT_CONSTRUCTOR and t.num_args() > 0 \
+                            and not _contains(t, v):
+                        sub = (f, v, t)
+                        break
+            if sub:
+                break
+        if not sub:
+            break
+        f0, v, t = sub
+        npc = []
+        for f in pc:
+            if f is f0:
+                continue
+            g = z3.substitute(f, (v, t))
+            npc.append(g if g.eq(f) else z3.simplify(g))
+        g = z3.substitute(goal, (v, t))
+        goal = g if g.eq(goal) else z3.simplify(g)
+        pc = npc
+    return pc, goal
 
 
 def smt2_of(w, ob):
